@@ -9,6 +9,9 @@ package main
 //   len s | get s i | slice s from to | iter s | utf8 s | index s n | contains s n | count s n
 //   split s sep | replace s orig repl | concat a b r | join sep r parts… | norm rawhex r
 //   enchex hexbytes | dechex s | lower s        (r = the segmented NFC result supplied by the harness)
+//   mconcat how a b r    first evaluate the character length of both operands on the very same values
+//                        (how = len | get | slice: .length, a[0], a.slice(from: 0, upTo: 0)), then concat;
+//                        observes bytes : length : iterated characters : equal to the literal r : length of the full slice
 
 import (
 	"fmt"
@@ -167,6 +170,27 @@ func execStrDirect(op []string) (res string) {
 	case "concat":
 		r := sv(op[3]).Concat(inter, sv(op[4])).(*interpreter.StringValue)
 		return "ok:" + hx.Hex([]byte(r.Str)) + ":" + strconv.Itoa(r.Length(inter))
+	case "mconcat":
+		a, b := sv(op[4]), sv(op[5])
+		for _, x := range []*interpreter.StringValue{a, b} {
+			switch {
+			case op[3] == "get" && x.Str != "":
+				x.GetKey(inter, interpreter.NewUnmeteredIntValueFromInt64(0))
+			case op[3] == "slice":
+				x.Slice(inter, interpreter.NewUnmeteredIntValueFromInt64(0), interpreter.NewUnmeteredIntValueFromInt64(0))
+			default:
+				x.Length(inter)
+			}
+		}
+		r := a.Concat(inter, b).(*interpreter.StringValue)
+		n := r.Length(inter)
+		iterated := 0
+		for it := r.Iterator(inter); it.Next(inter) != nil; {
+			iterated++
+		}
+		eq := r.Equal(inter, sv(op[6]))
+		full := r.Slice(inter, interpreter.NewUnmeteredIntValueFromInt64(0), interpreter.NewUnmeteredIntValueFromInt64(int64(n))).(*interpreter.StringValue)
+		return "ok:" + hx.Hex([]byte(r.Str)) + ":" + strconv.Itoa(n) + ":" + strconv.Itoa(iterated) + ":" + strBit(eq) + ":" + strconv.Itoa(full.Length(inter))
 	case "join":
 		var vs []interpreter.Value
 		for _, p := range op[5:] {
@@ -260,6 +284,19 @@ func execStrScript(op []string) string {
 		ret, body = "String", lit(op[3])+".replaceAll(of: "+lit(op[4])+", with: "+lit(op[5])+")"
 	case "concat":
 		ret, body = "[AnyStruct]", "fun (): [AnyStruct] { let r = "+lit(op[3])+".concat("+lit(op[4])+"); return [r, r.length] }()"
+	case "mconcat":
+		measure := func(v string) string {
+			switch {
+			case op[3] == "get" && map[string]string{"a": op[4], "b": op[5]}[v] != "-":
+				return v + "[0]"
+			case op[3] == "slice":
+				return v + ".slice(from: 0, upTo: 0)"
+			}
+			return v + ".length"
+		}
+		ret = "[AnyStruct]"
+		body = "fun (): [AnyStruct] { let a = " + lit(op[4]) + "; let b = " + lit(op[5]) + "; let ma = " + measure("a") + "; let mb = " + measure("b") +
+			"; let r = a.concat(b); var n = 0; for c in r { n = n + 1 }; return [r, r.length, n, r == " + lit(op[6]) + ", r.slice(from: 0, upTo: r.length).length] }()"
 	case "join":
 		var ps []string
 		for _, p := range op[5:] {
@@ -288,7 +325,11 @@ func execStrScript(op []string) string {
 	switch out.Class {
 	case "none":
 		if arr, ok := out.Value.(cadence.Array); ok && ret == "[AnyStruct]" {
-			return "ok:" + strCanon(arr.Values[0]) + ":" + strCanon(arr.Values[1])
+			parts := make([]string, len(arr.Values))
+			for i, e := range arr.Values {
+				parts[i] = strCanon(e)
+			}
+			return "ok:" + strings.Join(parts, ":")
 		}
 		if ret == "[Character]" {
 			return "ok:" + strings.ReplaceAll(strCanon(out.Value), ",", ".")
@@ -381,6 +422,89 @@ func strNeedle(r *hx.Rng, seg string) string {
 // (no letter: a following lone combining mark would compose with it)
 var strSafe = []string{"中", "\U0001F600", "", "0", "12", "中中", "\U0001F1E9\U0001F1EA", "\U0001F600\U0001F468", "_"}
 
+// Self-overlapping needles (C19: "substrings aligned to cluster boundaries"): the haystack is built so
+// that the first byte-level occurrence of the needle is not on cluster boundaries while a later
+// occurrence that overlaps it is.
+//
+// start-glued: hay = pre G u^m post, needle = u^k — G joins the first u into its cluster
+// ([RI_x RI_a][RI_a RI_a], [CR LF][LF][LF], [prepend u][u][u]), so u^k first matches one unit too early.
+var strGlued = []struct {
+	glue  string
+	units []string
+}{
+	{"\U0001F1E7", []string{"\U0001F1E6"}},
+	{"\U0001F1E9", []string{"\U0001F1EA"}},
+	{"\r", []string{"\n"}},
+	{"\u0600", []string{"1", "a", "ab", "中", "\U0001F600", "q\u0307", "가"}},
+	{"\u0605", []string{"7", "x"}},
+	{"a\u0301", []string{"a"}}, // control: NFC composes, every occurrence is aligned
+}
+
+// end-glued: needle = (x M)^k x, hay = pre (x M)^m x post — an occurrence that is followed by M ends
+// inside the cluster [x M]; only the last one is aligned, and it overlaps the ones before it.
+var strPeriodic = [][2]string{
+	{"x", "\u0301"}, {"q", "\u0323"}, {"q", "\u0307\u0323"}, {"\U0001F44D", "\U0001F3FD"}, {"中", "\u0301"},
+	{"क", "\u094D"}, {"a", "\u200D"}, {"\U0001F469", "\u200D"}, {"\u2764", "\uFE0F"}, {"ᄀ", "ᅡ"}, {"நி", "\u0BCD"},
+	{"e", "\u0301"}, // control: composes
+}
+
+func strOverlap(r *hx.Rng) (hay, needle string) {
+	pre, post := "", ""
+	if r.Chance(40) {
+		pre = strRandText(r, 2)
+	}
+	if r.Chance(40) {
+		post = strRandText(r, 2)
+	}
+	k := 1 + r.Intn(3)
+	if r.Bool() {
+		f := strGlued[r.Intn(len(strGlued))]
+		u := f.units[r.Intn(len(f.units))]
+		if k < 2 && len([]rune(u)) < 2 {
+			k = 2
+		}
+		m := k + 1 + r.Intn(3)
+		glue := f.glue
+		if r.Chance(10) {
+			glue = "" // control: aligned from the start
+		}
+		return pre + glue + strings.Repeat(u, m) + post, strings.Repeat(u, k)
+	}
+	f := strPeriodic[r.Intn(len(strPeriodic))]
+	m := k + 1 + r.Intn(k+1)
+	return pre + strings.Repeat(f[0]+f[1], m) + f[0] + post, strings.Repeat(f[0]+f[1], k) + f[0]
+}
+
+// operand pairs whose junction merges into one cluster or composes under NFC
+var strJunctions = [][2]string{
+	{"x", "\u0301"}, {"e", "\u0301"}, {"a", "\u0308\u0308"}, {"q\u0323", "\u0307"}, {"a\r", "\nb"}, {"\r", "\n"},
+	{"\U0001F1E6", "\U0001F1E7"}, {"\U0001F1E9\U0001F1EA\U0001F1EB", "\U0001F1F7"},
+	{"\U0001F469\u200D", "\U0001F4BB"}, {"\U0001F469", "\u200D\U0001F4BB"}, {"\U0001F468\u200D\U0001F469\u200D", "\U0001F467"},
+	{"\U0001F476", "\U0001F3FB"}, {"\u2764", "\uFE0F"}, {"\u1100", "\u1161"}, {"가", "\u11A8"}, {"\u1100", "\u1100\u1161"},
+	{"\u0600", "1"}, {"क", "\u094D"}, {"क\u094D", "ष"}, {"ந", "ி"}, {"\u0915", "\u093F"},
+}
+
+// replacement text for replaceAll: the empty replacement joins the kept pieces of the receiver directly, so
+// it is only used when no two clusters of the receiver compose under NFC when put next to each other
+// (e.g. LV syllable + trailing jamo after the jamo between them was removed); the other texts never
+// compose with what precedes or follows them.  (The result of replaceAll is re-normalised by the
+// interpreter; NFC is a parameter of the model, see props/C19.py.)
+func strRepl(r *hx.Rng, seg string) string {
+	repl := strSafe[r.Intn(len(strSafe))]
+	if repl != "" {
+		return repl
+	}
+	cs := strClusters(seg)
+	for i := range cs {
+		for j := i + 1; j < len(cs); j++ {
+			if !norm.NFC.IsNormalString(cs[i] + cs[j]) {
+				return "_"
+			}
+		}
+	}
+	return ""
+}
+
 func strIsASCII(s string) bool {
 	for i := 0; i < len(s); i++ {
 		if s[i] >= utf8.RuneSelf {
@@ -417,7 +541,22 @@ func genStr(c *hx.Ctx) {
 		n := len(strClusters(s))
 		ctrl := !strings.ContainsAny(strUnseg(s), "\r\n") // literals with CR / LF are written with escapes anyway
 		_ = ctrl
-		switch r.Intn(16) {
+		switch r.Intn(20) {
+		case 16, 17:
+			hay, nd := strOverlap(r)
+			h, n := strSeg(hay), strSeg(nd)
+			emit(true, "index", h, n)
+			emit(true, "contains", h, n)
+			emit(true, "count", h, n)
+			emit(true, "split", h, n)
+			emit(true, "replace", h, n, strSeg(strRepl(r, h)))
+		case 18, 19:
+			a, b := norm.NFC.String(strRandText(r, 2)), norm.NFC.String(strRandText(r, 2))
+			if r.Chance(80) {
+				j := strJunctions[r.Intn(len(strJunctions))]
+				a, b = norm.NFC.String(a+j[0]), norm.NFC.String(j[1]+b)
+			}
+			emit(true, "mconcat", []string{"len", "len", "get", "slice"}[r.Intn(4)], strSeg(a), strSeg(b), strSeg(a+b))
 		case 0:
 			emit(true, "len", s)
 			emit(true, "iter", s)
@@ -435,8 +574,7 @@ func genStr(c *hx.Ctx) {
 			emit(true, "split", s, strSeg(strNeedle(r, s)))
 		case 9, 10:
 			nd := strNeedle(r, s)
-			repl := strSafe[r.Intn(len(strSafe))]
-			emit(true, "replace", s, strSeg(nd), strSeg(repl))
+			emit(true, "replace", s, strSeg(nd), strSeg(strRepl(r, s)))
 		case 11:
 			b := strRandText(r, 3)
 			emit(true, "concat", s, strSeg(b), strSeg(strUnseg(s)+norm.NFC.String(b)))
